@@ -11,6 +11,10 @@
 #include <kernel/lafem/filter_sequence.hpp>
 #include <kernel/lafem/tuple_filter.hpp>
 #include <kernel/lafem/power_filter.hpp>
+#include <kernel/lafem/vector_mirror.hpp>
+#include <kernel/global/gate.hpp>
+#include <kernel/global/vector.hpp>
+#include <kernel/global/filter.hpp>
 using namespace vf;
 typedef double DT; typedef Index IT;
 typedef DenseVector<DT, IT> DV;
@@ -31,6 +35,14 @@ static std::vector<long> gen_index_set(Tape& t, long n, std::string& cls)
 }
 
 // ---------------------------------------------------------------- scalar unit filter: vectors and CSR matrices
+// Global::Filter is a forwarding wrapper: each of the four operations on a Global::Vector must give exactly what the wrapped local filter gives on the local vector
+template<typename F, typename V> static void global_wrap(const F& f, const V& v0, int op, const char* what)
+{
+  typedef LAFEM::VectorMirror<DT, IT> Mi; Global::Gate<V, Mi> gate; Global::Filter<F, Mi> gf(f.clone()); Global::Vector<V, Mi> gv(&gate, v0.clone());
+  V lv = v0.clone(); apply_op(f, lv, op); apply_op(gf, gv, op);
+  std::string x, y; vbytes(gv.local(), x); vbytes(lv, y); VF_CHECK(x == y, "Global::Filter<" << what << ">::" << fop_name[op] << " differs from the wrapped local filter's " << fop_name[op]);
+}
+
 static void unit_case(Tape& t, Ctx& c)
 {
   long n = t.sized(0, 40, 3); std::string icls; std::vector<long> idx = gen_index_set(t, n, icls);
@@ -168,7 +180,7 @@ static void mean_case(Tape& t, Ctx& c)
   c.op = std::string(fop_name[op]) + "@mean"; c.label(std::string("op:") + fop_name[op]); c.nontrivial = n >= 2; c.announce();
   DV vp((Index)n), vd((Index)n); vfill_all(vp, prim); vfill_all(vd, dual);
   MeanFilter<DT, IT> f(std::move(vp), std::move(vd), DT(solmean));   // volume := prim.dual, as the assembler sets it
-  DV v((Index)n); vfill_all(v, vv); apply_op(f, v, op); std::vector<long double> r; vflat(v, r);
+  DV v((Index)n); vfill_all(v, vv); global_wrap(f, v, op, "mean"); apply_op(f, v, op); std::vector<long double> r; vflat(v, r);
   long double rp = 0, rd = 0, sp = 0, sd = 0, vmax = 0, pmax = 0, dmax = 0;
   for(long i = 0; i < n; ++i) { rp += r[(size_t)i] * prim[(size_t)i]; rd += r[(size_t)i] * dual[(size_t)i]; vmax = std::max(vmax, fabsl((long double)vv[(size_t)i])); pmax = std::max(pmax, fabsl((long double)prim[(size_t)i])); dmax = std::max(dmax, fabsl((long double)dual[(size_t)i])); }
   (void)sp; (void)sd;
@@ -196,7 +208,7 @@ static void composed_case(Tape& t, Ctx& c)
   switch(kind)
   {
   case 0: { FilterChain<UnitFilter<DT, IT>, MeanFilter<DT, IT>> ch(mk_unit(i1, v1, 1), mk_mean()); DV a((Index)n), b((Index)n); vfill_all(a, va); vfill_all(b, va);
-    apply_op(ch, a, op); auto u = mk_unit(i1, v1, 1); auto m = mk_mean(); apply_op(u, b, op); apply_op(m, b, op);
+    global_wrap(ch, a, op, kn[kind]); apply_op(ch, a, op); auto u = mk_unit(i1, v1, 1); auto m = mk_mean(); apply_op(u, b, op); apply_op(m, b, op);
     std::string x, y; vbytes(a, x); vbytes(b, y); VF_CHECK(x == y, "FilterChain differs from applying its members in order"); break; }
   case 1: { FilterSequence<UnitFilter<DT, IT>> sq; sq.push_back(std::make_pair(String("first"), mk_unit(i1, v1, 1))); sq.push_back(std::make_pair(String("second"), mk_unit(i2, v2, 2)));
     DV a((Index)n), b((Index)n); vfill_all(a, va); vfill_all(b, va); apply_op(sq, a, op); auto u1 = mk_unit(i1, v1, 1), u2 = mk_unit(i2, v2, 2); apply_op(u1, b, op); apply_op(u2, b, op);
@@ -214,13 +226,13 @@ static void composed_case(Tape& t, Ctx& c)
     typedef DenseVectorBlocked<DT, IT, 2> VB; UnitFilterBlocked<DT, IT, 2> ub((Index)n); for(size_t k = 0; k < i2.size(); ++k) { Tiny::Vector<DT, 2> q; q[0] = v2[2 * k]; q[1] = v2[2 * k + 1]; ub.add((Index)i2[k], q); }
     TupleFilter<UnitFilterBlocked<DT, IT, 2>, MeanFilter<DT, IT>> tf(ub.clone(), mk_mean());
     TupleVector<VB, DV> tv(VB((Index)n), DV((Index)n)); vfill_all(tv.template at<0>(), vb); vfill_all(tv.template at<1>(), va); VB a((Index)n); DV b((Index)n); vfill_all(a, vb); vfill_all(b, va);
-    apply_op(tf, tv, op); auto m = mk_mean(); apply_op(ub, a, op); apply_op(m, b, op);
+    global_wrap(tf, tv, op, kn[kind]); apply_op(tf, tv, op); auto m = mk_mean(); apply_op(ub, a, op); apply_op(m, b, op);
     std::string x, y; vbytes(tv, x); vbytes(a, y); vbytes(b, y); VF_CHECK(x == y, "TupleFilter<unit_blocked,mean> differs from applying its members to the components"); break; }
   case 6: { TupleFilter<UnitFilter<DT, IT>, NoneFilter<DT, IT>, MeanFilter<DT, IT>> tf(mk_unit(i1, v1, 1), NoneFilter<DT, IT>(), mk_mean());
     std::vector<double> h1(vb.begin(), vb.begin() + n), h2(vb.begin() + n, vb.end());
     TupleVector<DV, DV, DV> tv(DV((Index)n), DV((Index)n), DV((Index)n)); vfill_all(tv.template at<0>(), va); vfill_all(tv.template at<1>(), h1); vfill_all(tv.template at<2>(), h2);
     DV a((Index)n), b((Index)n), d((Index)n); vfill_all(a, va); vfill_all(b, h1); vfill_all(d, h2);
-    apply_op(tf, tv, op); auto u1 = mk_unit(i1, v1, 1); auto m = mk_mean(); apply_op(u1, a, op); apply_op(m, d, op);
+    global_wrap(tf, tv, op, kn[kind]); apply_op(tf, tv, op); auto u1 = mk_unit(i1, v1, 1); auto m = mk_mean(); apply_op(u1, a, op); apply_op(m, d, op);
     std::string x, y; vbytes(tv, x); vbytes(a, y); vbytes(b, y); vbytes(d, y); VF_CHECK(x == y, "TupleFilter<unit,none,mean> differs from applying its members to the components"); break; }
   case 7: { PowerFilter<MeanFilter<DT, IT>, 3> pf; pf.template at<0>() = mk_mean(); pf.template at<1>() = mk_mean(); pf.template at<2>() = mk_mean();
     std::vector<double> h1(vb.begin(), vb.begin() + n), h2(vb.begin() + n, vb.end());
